@@ -850,10 +850,14 @@ class SigmaRegularExpression(SigmaType):
         """
         Replace all occurrences of string part matching regular expression with placeholder.
         """
-        return [
-            SigmaRegularExpression(str(sigmastr), self.flags)
-            for sigmastr in self.regexp.replace_placeholders(callback)
-        ]
+        result = []
+        for sigmastr in self.regexp.replace_placeholders(callback):
+            regexp = SigmaRegularExpression(str(sigmastr), self.flags)
+            # keep placeholders the callback passed through as placeholders (not as '%name%' text)
+            # so that they're handled by later transformations or fail the conversion
+            regexp.regexp = sigmastr
+            result.append(regexp)
+        return result
 
 
 @dataclass
